@@ -29,6 +29,8 @@ pub struct Report {
     pub done_through: i64,
     /// Cases during which the worker process died (filled by the parent).
     pub crashes: Vec<Value>,
+    /// Index of the case being executed (added to witnesses so they can be replayed).
+    pub cur_idx: i64,
 }
 
 impl Report {
@@ -72,6 +74,13 @@ impl Report {
         key: Option<&str>,
         witness: Value,
     ) {
+        let witness = match witness {
+            Value::Object(mut m) => {
+                m.insert("case_index".into(), json!(self.cur_idx));
+                Value::Object(m)
+            },
+            other => json!({"case_index": self.cur_idx, "witness": other}),
+        };
         if let Some(key) = key {
             if known.is_listed(&self.prop, key) {
                 let e = self.known.entry(key.to_string()).or_insert((0, witness));
